@@ -3,6 +3,11 @@
 import json, subprocess
 props = [json.loads(l) for l in open('/verif/properties.jsonl')]
 claims = json.load(open('/verif/claims.json'))
+import glob
+for f in sorted(glob.glob('/verif/claims.d/*.json')):
+    c = json.load(open(f))
+    claims["claimed"].update(c.get("claimed", {}))
+    claims["not_applicable"].update(c.get("not_applicable", {}))
 hooks = subprocess.run("git -C /repo log --format=%H --grep='^verif:' ", shell=True, capture_output=True, text=True).stdout.split()
 checks = []
 for p in props:
